@@ -628,6 +628,23 @@ class C18(ServerProp):
     def cases(self, rng, tier):
         out = []
         pair = 0
+        # at capacity, every descriptor ready (partial requests on all 10, an 11th client waiting), then the signal:
+        # 12 descriptors are ready in one batch and the kill switch became ready last
+        for k in range(12 if tier == 'quick' else 200):
+            pair += 1
+            ops = [[0, c] for c in range(10)] + [[11, 14]]
+            order = list(range(10))
+            rng.shuffle(order)
+            for c in order:
+                ops.append([1, c, rng.choice([b'GET /c%d/r0 HT' % c, b'PUT /c%d/r0 HTTP/1.1\r\nContent-Le' % c, b'G'])])
+            nready = rng.choice([10, 10, 10, 9, 7])
+            ops = ops[:11 + nready] if nready < 10 else ops
+            ops.append([0, 10])
+            at = len(ops)
+            hk = Hist(rng)
+            hk.ops = ops + [[9], [6], [6], [11, 3], [6]]
+            hk.sent = {}
+            out.append(self.mk(hk, 1, {'kind': 'kill-at-capacity-all-ready', 'pair': pair, 'at': at, 'role': 'kill'}))
         for _ in range(450 if tier == 'quick' else 15000):
             r = rng.random()
             h = well_behaved(rng) if r < 0.4 else (adversarial(rng) if r < 0.7 else capacity(rng))
